@@ -1,1 +1,157 @@
-"""placeholder"""
+"""C16 - only allow-listed metrics are exported; an empty allow-list exports nothing (necessary structural conditions)."""
+
+from __future__ import annotations
+
+import ast
+import re
+
+from . import rule
+from ..model import Unresolved, walk_scope, parent, enclosing_function, qualname
+from ..paths import U, Path, Evaluator
+from .. import q
+
+BR = 'openfilter/observability/bridge.py'
+CF = 'openfilter/observability/config.py'
+CL = 'openfilter/observability/client.py'
+
+
+def export_paths(repo):
+    c = repo.__dict__.setdefault('_c16', {})
+    if 'export' not in c:
+        mod, fn = repo.find(f'{BR}::OTelLineageExporter.export')
+        ev = Evaluator(repo, mod, unroll_for=1)
+        ev.scope_node = fn
+        c['export'] = (mod, fn, ev.run(fn.body))
+    return c['export']
+
+
+def metric_name_terms(p: Path):
+    """terms that denote the metric's name on this path: <dp>.name where dp iterates `<sm>.metrics`"""
+    return {e.args[0] for e in p.events if e.kind == 'bind' and e.args and re.search(r'\.metrics\)\.name$', e.args[0])}
+
+
+@rule('C16.R1', 'guard dominance: every facet entry keyed by a metric name is stored only on paths where the allow-list test for that name '
+                'succeeded (or the list is explicitly None = documented allow-all of the direct API); never through falsiness of the list')
+def r1(rr, repo):
+    mod, fn, paths = export_paths(repo)
+    rr.paths += len(paths)
+    sites = set()
+    for p in paths:
+        names = metric_name_terms(p)
+        for e in p.events:
+            if e.kind == 'store' and e.term.startswith('facet[') and any(nm in e.term for nm in names):
+                sites.add(id(e.node))
+                pc = dict(p.pc[:e.pc_len])
+                allowed = [v for k, v in pc.items() if k.startswith('truthy(self._is_allowed(')]
+                isnone = pc.get('isnone(self._allow)')
+                falsy = pc.get('truthy(self._allow)')
+                if allowed and allowed[-1] is True:
+                    rr.holds('metric stored after its name passed the allow-list test', mod, e.node, key=f'allowed|{e.raw[:50]}')
+                elif isnone is True:
+                    rr.holds('metric stored because the allow-list is explicitly None (allow-all of the direct API)', mod, e.node, key=f'none|{e.raw[:50]}')
+                else:
+                    rr.violated('a metric reaches the exported facet without having passed the allow-list test' + (' (the test is skipped when the list is empty/falsy)' if falsy is False else ''),
+                                mod, e.node, witness=p.pc_text(e.pc_len)[-400:], key=f'unguarded|{e.raw[:50]}|falsy={falsy}')
+    rr.floor('facet stores keyed by a metric name', len(sites), 3, mod, fn)
+
+
+@rule('C16.R2', 'no default-allow on an empty list: _is_allowed answers True only through membership, fnmatch success or an explicit `is None` test')
+def r2(rr, repo):
+    mod, fn = repo.find(f'{BR}::OTelLineageExporter._is_allowed')
+    ev = Evaluator(repo, mod, unroll_for=1)
+    paths = ev.run(fn.body)
+    rr.paths += len(paths)
+    param = q.func_params(fn)[1]
+    n = 0
+    for p in paths:
+        o = p.outcome
+        val = None
+        if o is None:
+            val = None
+        elif o[0] == 'return' and o[1] is not None:
+            ok, val = Evaluator.const_of(o[1])
+            if not ok:
+                rr.unresolved('_is_allowed returns a non-constant', mod, fn, witness=p.outcome_text(), key='nonconst')
+                continue
+        if val is True:
+            n += 1
+            member = p.facts.get(f'in({param}, self._allow)') is True
+            fn_ok = any(k.startswith('truthy(fnmatch.fnmatch(') and v is True for k, v in p.facts.items())
+            none = p.facts.get('isnone(self._allow)') is True
+            falsy = p.facts.get('truthy(self._allow)') is False
+            rr.ob('True only via membership / wildcard match / explicit None', (member or fn_ok or none) and not (falsy and not (member or fn_ok or none)), mod, fn,
+                  witness=f'{p.pc_text()} => True', key=f'true-path|member={member}|fnmatch={fn_ok}|none={none}|falsy={falsy}')
+        elif val is False or val is None:
+            pass
+    rr.floor('paths of _is_allowed answering True', n, 2, mod, fn)
+    # wildcard semantics is fnmatch over the list's own entries
+    fm = [c for c in q.calls_in(fn) if U(c.func) in ('fnmatch.fnmatch', 'fnmatch.fnmatchcase', 'fnmatch')]
+    rr.ob('wildcards are matched with fnmatch(metric_name, pattern) over the configured entries', bool(fm) and all(U(c.args[0]) == param for c in fm), mod, fn, key='fnmatch-args')
+
+
+@rule('C16.R3', 'default is lock-down: read_allowlist returns a set on every path, the fall-through value is the empty set, and the client passes it unmodified')
+def r3(rr, repo):
+    mod, fn = repo.find(f'{CF}::read_allowlist')
+    ev = Evaluator(repo, mod)
+    paths = ev.run(fn.body)
+    rr.paths += len(paths)
+    n = 0
+    for p in paths:
+        o = p.outcome
+        if o is None or o[0] != 'return' or o[1] is None:
+            if o is not None and o[0] == 'raise':
+                continue
+            rr.violated('read_allowlist can end without returning a set', mod, fn, witness=p.pc_text(), key='no-return')
+            continue
+        n += 1
+        t = U(o[1])
+        rr.ob('read_allowlist returns a set(...)', t.startswith('set('), mod, fn, witness=t[:100], key=f'returns-set|{t[:30]}')
+        envs = [v for k, v in p.facts.items() if k.startswith('truthy(os.getenv(')]
+        if envs and not any(envs):
+            rr.ob('with neither file nor variable configured the allow-list is the empty set', t == 'set()', mod, fn, witness=t, key='default-empty')
+    rr.floor('returning paths of read_allowlist', n, 2, mod, fn)
+    cm = repo.module(CL)
+    cons = [c for c in q.calls_in(cm.tree) if U(c.func).endswith('OTelLineageExporter')]
+    rr.floor('constructions of OTelLineageExporter in the client', len(cons), 1, cm, cm.tree)
+    for c in cons:
+        a = q.kwarg(c, 'allowlist') or (c.args[1] if len(c.args) > 1 else None)
+        ok = False
+        if a is not None:
+            if isinstance(a, ast.Call) and U(a.func).endswith('read_allowlist'):
+                ok = True
+            elif isinstance(a, ast.Name):
+                fn_ = enclosing_function(c)
+                asg = [n_ for n_ in ast.walk(fn_) if isinstance(n_, ast.Assign) and any(isinstance(t, ast.Name) and t.id == a.id for t in n_.targets)]
+                ok = len(asg) == 1 and isinstance(asg[0].value, ast.Call) and U(asg[0].value.func).endswith('read_allowlist') and not asg[0].value.args
+        rr.ob('the client hands read_allowlist() to the exporter unmodified', ok, cm, c, witness=U(a) if a is not None else 'no allowlist argument', key='client-passes')
+    bm, ctor = repo.find(f'{BR}::OTelLineageExporter.__init__')
+    st = [s for s, t in q.stores_to_attr(repo.find(f'{BR}::OTelLineageExporter')[1], '_allow')]
+    rr.ob('the exporter keeps the allow-list as given (single store, self._allow = allowlist)', len(st) == 1 and isinstance(st[0], ast.Assign) and U(st[0].value) == 'allowlist', bm, st[0] if st else ctor, key='allow-stored')
+
+
+@rule('C16.R4', 'histogram facet shape: counts are brought to len(bounds) + 1 on every path before they are stored, and every stored field is numeric (int()/float())')
+def r4(rr, repo):
+    mod, fn, paths = export_paths(repo)
+    n = 0
+    for p in paths:
+        for e in p.events:
+            if e.kind == 'store' and e.term.startswith('facet[') and '_histogram' in e.term and isinstance(e.value, ast.Dict):
+                n += 1
+                d = {q.const_str(k): v for k, v in zip(e.value.keys, e.value.values) if k is not None}
+                pc = p.pc[:e.pc_len]
+                mism = [(k, v) for k, v in pc if k.startswith('eq(') and 'bucket_counts' in k and 'explicit_bounds' in k and '+ 1' in k]
+                counts = U(d.get('counts')) if d.get('counts') is not None else ''
+                if mism and mism[-1][1] is False:
+                    fixed = '[:len(' in counts and '+ 1]' in counts
+                    ext = [c for c in p.events if c.kind == 'call' and c.term.endswith('.extend') and '+ 1 - len(' in (c.args[0] if c.args else '')]
+                    rr.ob('mismatched histogram: counts are truncated or zero-padded to len(bounds) + 1', fixed or bool(ext), mod, e.node, witness=p.pc_text(e.pc_len)[-300:], key=f'hist-fix|trunc={fixed}|ext={bool(ext)}')
+                elif not mism:
+                    rr.violated('histogram stored without comparing len(counts) with len(bounds) + 1', mod, e.node, witness=p.pc_text(e.pc_len)[-300:], key='hist-nocheck')
+                num = lambda x, f: x is not None and (re.match(rf'^\[{f}\(\w+\) for ', U(x)) is not None or U(x).startswith(f'{f}(') or re.match(rf'^{f}\(.*\) if .* else \d', U(x)) is not None)
+                rr.ob("'buckets' are floats", num(d.get('buckets'), 'float'), mod, e.node, witness=U(d.get('buckets'))[:80] if d.get('buckets') is not None else '', key='hist-buckets')
+                rr.ob("'counts' are ints", 'int(count)' in counts or num(d.get('counts'), 'int'), mod, e.node, witness=counts[:80], key='hist-counts')
+                rr.ob("'count' is an int", num(d.get('count'), 'int'), mod, e.node, witness=U(d.get('count'))[:80] if d.get('count') is not None else '', key='hist-count')
+                rr.ob("'sum' is a float", num(d.get('sum'), 'float'), mod, e.node, witness=U(d.get('sum'))[:80] if d.get('sum') is not None else '', key='hist-sum')
+            elif e.kind == 'store' and e.term.startswith('facet[') and '_histogram' not in e.term and 'raw_subject_data' not in e.term:
+                rr.ob('counter / gauge values are stored as int(...) / float(...)', e.args[0].startswith('int(') or e.args[0].startswith('float('), mod, e.node, witness=e.args[0][:60], key=f'scalar|{e.args[0][:12]}')
+    rr.floor('histogram stores', n, 1, mod, fn)
